@@ -317,7 +317,7 @@ pub fn run_one(prop: &dyn Prop, stream: &[u32], tier: Tier, rendering: bool, fin
                 let _ = std::fs::create_dir_all(&dir);
                 let _ = std::fs::write(
                     format!("{}/{}-{}-{}.json", dir, prop.id(), k, n),
-                    serde_json::to_string(&json!({"property": prop.id(), "engine": "known-finding-dump", "stream": sm, "message": k})).unwrap(),
+                    serde_json::to_string(&json!({"property": prop.id(), "engine": "known-finding-dump", "tier": tier.name(), "stream": sm, "message": k})).unwrap(),
                 );
             }
         }
@@ -550,6 +550,8 @@ fn regress_stage(prop: &dyn Prop, tier: Tier, findings: &Findings) -> (Stats, Op
     for f in files {
         let Some(stream) = read_replay_stream(f.to_str().unwrap()) else { continue };
         n += 1;
+        // a regression input decodes under the tier it was recorded in (sizes may depend on the tier), whatever tier runs it
+        let tier = read_replay_tier(f.to_str().unwrap()).unwrap_or(tier);
         let (out, mut case) = run_one(prop, &stream, tier, st.samples.len() < 2, findings);
         if let Outcome::Fail(_) = &out {
             let (msg, rendered) = render_failure(prop, &stream, tier, findings);
@@ -567,7 +569,22 @@ pub fn read_replay_stream(path: &str) -> Option<Vec<u32>> {
     Some(arr.iter().filter_map(|x| x.as_u64()).map(|x| x as u32).collect())
 }
 
+pub fn read_replay_tier(path: &str) -> Option<Tier> {
+    let txt = std::fs::read_to_string(path).ok()?;
+    let v: Value = serde_json::from_str(&txt).ok()?;
+    match v.get("tier")?.as_str()? {
+        "quick" => Some(Tier::Quick),
+        "thorough" => Some(Tier::Thorough),
+        _ => None,
+    }
+}
+
 pub fn write_replay(prop_id: &str, f: &Failure) -> String {
+    write_replay_tier(prop_id, f, None)
+}
+
+/// the replay file records the tier whose decoding produced the failure (sizes may depend on the tier)
+pub fn write_replay_tier(prop_id: &str, f: &Failure, tier: Option<Tier>) -> String {
     let dir = format!("{}/replays", crate::verif_dir());
     let _ = std::fs::create_dir_all(&dir);
     let mut h: u64 = 0xcbf29ce484222325;
@@ -575,13 +592,16 @@ pub fn write_replay(prop_id: &str, f: &Failure) -> String {
         h = (h ^ *v as u64).wrapping_mul(0x100000001b3);
     }
     let path = format!("{}/{}-{:016x}.json", dir, prop_id, h);
-    let doc = json!({
+    let mut doc = json!({
         "property": prop_id,
         "engine": f.engine,
         "stream": f.stream,
         "message": f.message,
         "rendered_case": f.rendered,
     });
+    if let Some(t) = tier {
+        doc["tier"] = json!(t.name());
+    }
     let _ = std::fs::write(&path, serde_json::to_string_pretty(&doc).unwrap());
     path
 }
@@ -672,7 +692,7 @@ pub fn run_property(prop: &dyn Prop, tier: Tier, seed: u64, findings: &Findings,
         crate::out(l);
     }
     if let Some(f) = failure {
-        let path = write_replay(prop.id(), &f);
+        let path = write_replay_tier(prop.id(), &f, if f.engine == "regress" { None } else { Some(tier) });
         crate::out(&format!("VIOLATION property={} replay={}", prop.id(), path));
         crate::out(&format!("  engine={} message: {}", f.engine, f.message));
         crate::out(&format!("  case: {}", f.rendered));
@@ -697,7 +717,11 @@ pub fn replay(prop: &dyn Prop, path: &str, findings: &Findings) -> i32 {
         return 2;
     };
     let mut worst = 0;
-    for tier in [Tier::Quick, Tier::Thorough] {
+    let tiers: Vec<Tier> = match read_replay_tier(path) {
+        Some(t) => vec![t],
+        None => vec![Tier::Quick, Tier::Thorough],
+    };
+    for tier in tiers {
         let (out, case) = run_one(prop, &stream, tier, true, findings);
         let rendered = case.render.unwrap_or_default();
         match out {
